@@ -399,7 +399,39 @@ def _abstract_collections_in_union_dump(ctx):
                 ctx.violation("dump-mismatch:Union:virtual-subclass", f"{hint!r}: load({datum!r}) = {x!r:.80}, its dump {out!r:.120}, documented {want!r} [{mode_name(dt, sc)}]", {"type": repr(hint)})
 
 
+def _union_dispatch_fixed_hierarchy(ctx):
+    """The fixed form of union_dispatch_case: Union[L1, Sub] with Sub(L1), Mid(L1), Y(Mid, Sub), Z(Sub, Mid); every object is dumped by the
+    FIRST listed class of its mro, in every order of dumping through one retort (the random hierarchies of union_dispatch_case produce this
+    shape at some seeds only)."""
+    import itertools  # noqa: PLC0415
+    import typing as t  # noqa: PLC0415
+
+    from adaptix import dumper  # noqa: PLC0415
+
+    def cls(name, *bases):
+        return type(name, bases, {"__init__": lambda self: None, "__repr__": lambda self: type(self).__name__ + "()"})
+    L1 = cls("L1")
+    Sub, Mid = cls("Sub", L1), cls("Mid", L1)
+    Y, Z, Un = cls("Y", Mid, Sub), cls("Z", Sub, Mid), cls("Unrelated")
+    listed = [L1, Sub]
+    want = {L1: "L1", Sub: "Sub", Mid: "L1", Y: "Sub", Z: "Sub"}
+    for order in itertools.permutations([Mid, Y, Z, Sub, L1], 4):
+        r = Retort(recipe=[dumper(c, (lambda x, n=c.__name__: n)) for c in listed])
+        for pos, c in enumerate(order):
+            got = attempt(r.dump, c(), t.Union[tuple(listed)])
+            ctx.evaluated(("union-dispatch-fixed", tuple(k.__name__ for k in order[:pos + 1])), nontrivial=True)
+            ctx.count("union_dispatches")
+            if got.kind != "ok" or got.value != want[c]:
+                ctx.violation("dump:union-case-not-nearest-ancestor", f"{c.__name__} (mro {[k.__name__ for k in c.__mro__]}) dumped with {got!r:.100} after {[k.__name__ for k in order[:pos]]}, "
+                              f"nearest listed ancestor is {want[c]}", {"order": [k.__name__ for k in order]})
+                return
+    out = attempt(Retort(recipe=[dumper(c, (lambda x, n=c.__name__: n)) for c in listed]).dump, Un(), t.Union[tuple(listed)])
+    if out.kind == "ok":
+        ctx.violation("dump:union-case-for-unrelated-class", f"object of Unrelated (no listed ancestor) dumped as {out.value!r} through Union[L1, Sub]", {})
+
+
 DIRECTED = {
+    "union-dispatch-fixed-hierarchy": _union_dispatch_fixed_hierarchy,
     "abstract-collections-in-union-dump": _abstract_collections_in_union_dump,
     "annotated-cases-in-union-dump": _annotated_cases_in_union_dump,
     "literal-lookalikes-in-union-dump": _literal_lookalikes_in_union_dump,
